@@ -144,7 +144,7 @@ func TestVerifParallel(t *testing.T) {
 					return
 				default:
 					mm.Series()
-					time.Sleep(200 * time.Microsecond)
+					time.Sleep(2 * time.Millisecond)
 				}
 			}
 		}()
@@ -153,7 +153,7 @@ func TestVerifParallel(t *testing.T) {
 			go func(m int) {
 				defer wg.Done()
 				mon := NewMonitor(cctx, fmt.Sprintf("mon%d", m), nil, nil, false)
-				for j := 0; j < per*rounds; j++ {
+				for j := 0; j < per; j++ {
 					pfx := netip.AddrFrom16([16]byte{0x20, 0x01, 0x0d, 0xb8, byte(m + 1), byte(j >> 8), byte(j)})
 					mon.handle(&ndp.RouterAdvertisement{RouterLifetime: 30 * time.Minute, Options: []ndp.Option{
 						&ndp.PrefixInformation{PrefixLength: 64, Prefix: pfx, ValidLifetime: time.Hour, PreferredLifetime: time.Minute}}}, fmt.Sprintf("fe80::%x", m+1))
@@ -185,8 +185,8 @@ func TestVerifParallel(t *testing.T) {
 			}
 		}
 		for m := 0; m < nm && viol == ""; m++ {
-			if count[m] != per*rounds+1 {
-				viol = fmt.Sprintf("monitor mon%d received %d distinct prefixes but %d are described", m, per*rounds+1, count[m])
+			if count[m] != per+1 {
+				viol = fmt.Sprintf("monitor mon%d received %d distinct prefixes but %d are described", m, per+1, count[m])
 			}
 		}
 		out.Emit(verifh.Case{ID: "par-monitors", Input: map[string]any{"kind": "parallel-monitors"}, Tags: []string{"parallel:monitors"}, ImplViolation: viol})
